@@ -437,6 +437,8 @@ def features(node):
                     f.add("rep_var_min0_bounded")
                 if n[4] and n[3] is not None and n[3] > 1:
                     f.add("rep_var_bounded")
+                if any(x[0] in ("alt", "rep") for x in walk(body)):
+                    f.add("rep_var_multi")
                 if in_rep:
                     f.add("rep_var_nested")
                     if n[2] == 0:
